@@ -14,6 +14,7 @@ def isLive : Op → Bool
   | .truncate _ => false
   | .crash => false
   | .restart => false
+  | .forget _ => false
   | _ => true
 
 /-- every live op preserves the invariant, for any notion of good events closed under later SeqIDs -/
@@ -104,6 +105,7 @@ theorem inv_step_live {cfg : Cfg} {G : Ev → Prop} {Ex : Nat → Prop} (hgu : G
     · cases hs
   | crash => simp [isLive] at hl
   | restart => simp [isLive] at hl
+  | forget i => simp [isLive] at hl
 
 /-- every op except `truncate` preserves the invariant (all events good); `crash` needs the
     coverage hypothesis -/
@@ -121,6 +123,18 @@ theorem inv_step {cfg : Cfg} {s s' : State} {op : Op} (h : Inv cfg allGood noEx 
     split at hs
     · cases hs
     · rename_i hup; cases hs; exact inv_restart (by simpa using hup) h
+  | forget i =>
+    simp only [step?] at hs
+    split at hs
+    · rename_i hr
+      split at hs
+      · split at hs
+        · rename_i hc
+          cases hs
+          exact inv_forget (by simp [running] at hr; exact hr.1.1) (by simp [noEx]) hc.2 h
+        · cases hs
+      · cases hs
+    · cases hs
   | _ => exact inv_step_live goodUp_all h rfl hs
 
 /-- `P` holds in every state of the run in which a `crash` op is executed -/
